@@ -25,6 +25,19 @@ ANG = "tf_pwa/angle.py::"
 HEL = "tf_pwa/data_trans/helicity_angle.py::"
 
 
+def _bind(names, args, kwargs, defaults=None):
+    """positional/keyword binding for hook functions that stand in for repo callables"""
+    out = list(args[: len(names)])
+    for nm in names[len(out):]:
+        if nm in kwargs:
+            out.append(kwargs[nm])
+        elif defaults and nm in defaults:
+            out.append(defaults[nm])
+        else:
+            raise Unmodelled("argument %s missing in a hooked call" % nm)
+    return out
+
+
 def check_helicity_step(repo, chk, oblige):
     chk.rule("E6-helicity", "one decay step: angle_zx_z_getx recovers (phi, theta) from a momentum built with them, and the helicity frames recorded by create_rotate_p_decay for both daughters equal the frames the extractor derives")
     c = sp.Symbol("c", real=True)  # cos(theta), |c| < 1
@@ -65,7 +78,7 @@ def check_helicity_step(repo, chk, oblige):
     captured = []
 
     def angle_from_hook(tr_, args, kwargs, n):
-        v, x, y = [np.asarray(a, dtype=object).reshape(-1) for a in args[:3]]
+        v, x, y = [np.asarray(a, dtype=object).reshape(-1) for a in _bind(["self", "x", "y"], args, kwargs)]
         captured.append((np.sum(v * y), np.sum(v * x)))  # atan2(v.y, v.x)
         return sp.Symbol("ang%d" % len(captured))
 
@@ -73,7 +86,7 @@ def check_helicity_step(repo, chk, oblige):
     W = ANG + "EulerAngle.angle_zx_z_getx"
     fn = repo.fn(W)
     # EulerAngle(...) constructor: keep the three angles
-    tr.hooks[ANG.rstrip(":") + "::EulerAngle"] = lambda tr_, args, kwargs, n: {"alpha": args[0], "beta": args[1], "gamma": args[2]}
+    tr.hooks[ANG.rstrip(":") + "::EulerAngle"] = lambda tr_, args, kwargs, n: dict(zip(("alpha", "beta", "gamma"), _bind(["alpha", "beta", "gamma"], args, kwargs, {"alpha": 0, "beta": 0, "gamma": 0})))
     try:
         res = tr.call_fn(fn, [ez, ex, mom])
     except Unmodelled as e:
@@ -117,27 +130,34 @@ def check_helicity_step(repo, chk, oblige):
         raise AnalysisError("create_rotate_p_decay: loop over the decays not found")
     body = loops[0].body
     m1, m2 = sp.symbols("m1 m2", positive=True)
+    from ..sym import SelfObj
+
+    BETA = sp.Symbol("BETA", real=True)
+    dec = SelfObj(None, {"core": "A", "outs": ["B", "C"]})
     env = {
         "axis_map": {"A": [ex.reshape(1, 3), ey.reshape(1, 3), ez.reshape(1, 3)]},
-        "dec": {"core": "A", "outs": ["B", "C"]},
+        "dec": dec,
         "mass": {"B": m1, "C": m2},
         "monmentum_in_rest": {},
-        "p": P, "c": c, "i": PHI,
+        # the data dictionaries: |p|, and the helicity angles of the first daughter
+        "data": {dec: {"|p|": P, "B": {"angle": {"alpha": PHI, "beta": BETA, "gamma": sp.Integer(0)}}}},
     }
-    tr2 = Translator(repo, hooks={"stack_as_array": True, "unary:cos": trig("cos"), "unary:sin": trig("sin")}, max_depth=6)
-    started = False
+
+    def trig2(kind):
+        base = trig(kind)
+
+        def f(tr_, a):
+            if a == BETA:
+                return c if kind == "cos" else s
+            return base(tr_, a)
+        return f
+
+    tr2 = Translator(repo, hooks={"stack_as_array": True, "unary:cos": trig2("cos"), "unary:sin": trig2("sin")}, max_depth=6)
     for st in body:
-        if not started:
-            # skip the statement that unpacks (|p|, cos(beta), alpha) from the data dictionaries
-            if isinstance(st, ast.Assign) and isinstance(st.targets[0], ast.Tuple) and {norm_text(e) for e in st.targets[0].elts} == {"p", "c", "i"}:
-                started = True
-            continue
         try:
             tr2.exec_stmt(st, env, bf.mod, 0)
         except Unmodelled as e:
             raise AnalysisError("create_rotate_p_decay: statement `%s` not modelled: %s" % (norm_text(st)[:60], e))
-    if not started:
-        raise AnalysisError("create_rotate_p_decay: unpacking of (p, c, i) not found")
     am = env["axis_map"]
     if "B" not in am or "C" not in am:
         raise AnalysisError("create_rotate_p_decay no longer records the daughters' axes")
@@ -204,50 +224,91 @@ def check_frame_typing(repo, chk):
     for key in (CAL + "cal_chain_boost", CAL + "cal_single_boost"):
         fn = repo.fn(key)
 
-        def walk(stmts, env, cur_decay):
+        def is_rv(c):
+            return isinstance(c, ast.Call) and norm_text(c.func).endswith("rest_vector") and len(c.args) + len(c.keywords) == 2
+
+        def typed(call, env, cur_decay, st):
+            """frame check of one rest_vector call; returns (fa, fb)"""
             nonlocal n_sites
+            n_sites += 1
+            a0, a1 = (list(call.args) + [k.value for k in call.keywords])[:2]
+            fa, fb = _frame_of(a0, env), _frame_of(a1, env)
+            if fa is None or fb is None:
+                raise AnalysisError("%s:%d the frame of `%s` / `%s` is not recognisable (neither data[.][\"p\"] nor part_data[.][\"rest_p\"][.])" % (fn.mod.rel, st.lineno, norm_text(a0), norm_text(a1)))
+            site = "%s@%s" % (norm_text(_Inline(env).visit(ast.parse(ast.unparse(a1), mode="eval").body)), cur_decay or "?")
+            ok = fa[0] == fb[0] and (fa[0] == "lab" and fa[1] == fb[1] or fa[0] == "rest" and fa[1:3] == fb[1:3])
+            chk.oblige("T-frame", "%s:%d rest_vector(%s, %s): frames %s / %s agree" % (fn.mod.rel, st.lineno, norm_text(a0), norm_text(a1), fa[:-1], fb[:-1]), ok)
+            if not ok:
+                chk.violation("T-frame", key, "mixed-frame:" + site, "boost velocity taken from %s but the boosted momentum from %s: the result is not the momentum in the decaying particle's rest frame (intermediate boosts dropped)" % (fa, fb), file=fn.mod.rel, line=st.lineno)
+            if ok and cur_decay is not None:
+                part = fa[-1]
+                if part != cur_decay + ".core":
+                    chk.violation("T-frame", key, "boost-velocity:" + site, "boost velocity is the momentum of %s, not of the decaying particle %s.core" % (part, cur_decay), file=fn.mod.rel, line=st.lineno)
+                chk.oblige("T-frame", "%s:%d boost velocity is the momentum of %s.core" % (fn.mod.rel, st.lineno, cur_decay), part == cur_decay + ".core")
+            return fa, fb
+
+        def stored(tgt_frame, fb, cur_decay, st, text):
+            ok = fb is not None and tgt_frame[2] == (cur_decay or tgt_frame[2]) and tgt_frame[3] == fb[-1]
+            chk.oblige("T-frame", "%s:%d stored as rest_p[%s] of decay %s" % (fn.mod.rel, st.lineno, tgt_frame[3], tgt_frame[2]), ok)
+            if not ok:
+                chk.violation("T-frame", key, "store:%s" % text, "the boosted momentum of %s is stored under %s" % (fb and fb[-1], text), file=fn.mod.rel, line=st.lineno)
+
+        def walk(stmts, env, cur_decay):
             for st in stmts:
-                if isinstance(st, ast.Assign) and len(st.targets) == 1 and isinstance(st.targets[0], ast.Name):
-                    val = st.value
-                    if isinstance(val, ast.Call) and norm_text(val.func).endswith("rest_vector") and len(val.args) == 2:
-                        n_sites += 1
-                        fa, fb = _frame_of(val.args[0], env), _frame_of(val.args[1], env)
-                        site = "%s@%s" % (norm_text(val.args[1]) if not isinstance(val.args[1], ast.Name) else norm_text(env.get(val.args[1].id, val.args[1])), cur_decay or "?")
-                        if fa is None or fb is None:
-                            raise AnalysisError("%s:%d the frame of `%s` / `%s` is not recognisable (neither data[.][\"p\"] nor part_data[.][\"rest_p\"][.])" % (fn.mod.rel, st.lineno, norm_text(val.args[0]), norm_text(val.args[1])))
-                        ok = fa[0] == fb[0] and (fa[0] == "lab" and fa[1] == fb[1] or fa[0] == "rest" and fa[1:3] == fb[1:3])
-                        chk.oblige("T-frame", "%s:%d rest_vector(%s, %s): frames %s / %s agree" % (fn.mod.rel, st.lineno, norm_text(val.args[0]), norm_text(val.args[1]), fa and fa[:-1], fb and fb[:-1]), ok)
-                        if not ok:
-                            chk.violation("T-frame", key, "mixed-frame:" + site, "boost velocity taken from %s but the boosted momentum from %s: the result is not the momentum in the decaying particle's rest frame (intermediate boosts dropped)" % (fa, fb), file=fn.mod.rel, line=st.lineno)
-                        # p_rest must be the momentum of the decaying particle `<decay>.core`
-                        if ok and cur_decay is not None:
-                            part = fa[-1]
-                            if part != cur_decay + ".core":
-                                chk.violation("T-frame", key, "boost-velocity:" + site, "boost velocity is the momentum of %s, not of the decaying particle %s.core" % (part, cur_decay), file=fn.mod.rel, line=st.lineno)
-                            chk.oblige("T-frame", "%s:%d boost velocity is the momentum of %s.core" % (fn.mod.rel, st.lineno, cur_decay), part == cur_decay + ".core")
-                        env[st.targets[0].id] = ("RESULT", fa, fb)
+                if isinstance(st, (ast.For, ast.While, ast.If, ast.With, ast.Try)):
+                    if isinstance(st, ast.For):
+                        d = cur_decay
+                        if isinstance(st.target, ast.Name) and norm_text(st.iter) in ("decay_set", "decay_chain"):
+                            d = st.target.id
+                        walk(st.body, dict(env), d)
+                    elif isinstance(st, ast.If):
+                        walk(st.body, dict(env), cur_decay)
+                        walk(st.orelse, dict(env), cur_decay)
+                    else:
+                        walk(st.body, dict(env) if isinstance(st, ast.While) else env, cur_decay)
+                    continue
+                calls = [c for c in ast.walk(st) if is_rv(c)]
+                if isinstance(st, ast.Assign) and len(st.targets) == 1:
+                    tgt, val = st.targets[0], st.value
+                    if isinstance(tgt, ast.Name):
+                        if is_rv(val):
+                            fa, fb = typed(val, env, cur_decay, st)
+                            env[tgt.id] = ("RESULT", fa, fb)
+                        elif isinstance(val, ast.DictComp) and is_rv(val.value):
+                            # rest_p = {j: rest_vector(p_rest, <momentum of j>) for j in ...}
+                            fa, fb = typed(val.value, env, cur_decay, st)
+                            env[tgt.id] = ("RESULTMAP", fa, fb, norm_text(val.key))
+                        elif calls:
+                            raise AnalysisError("%s:%d rest_vector inside `%s`: store of the result not recognised" % (fn.mod.rel, st.lineno, norm_text(st)[:60]))
+                        else:
+                            env[tgt.id] = val
                         continue
-                    env[st.targets[0].id] = val
-                elif isinstance(st, ast.Assign) and len(st.targets) == 1 and isinstance(st.targets[0], ast.Subscript):
-                    tf_ = _frame_of(st.targets[0], {})
-                    if tf_ and tf_[0] == "rest" and isinstance(st.value, ast.Name) and isinstance(env.get(st.value.id), tuple):
-                        _, fa, fb = env[st.value.id]
-                        ok = fb is not None and tf_[2] == (cur_decay or tf_[2]) and tf_[3] == fb[-1]
-                        chk.oblige("T-frame", "%s:%d stored as rest_p[%s] of decay %s" % (fn.mod.rel, st.lineno, tf_[3], tf_[2]), ok)
-                        if not ok:
-                            chk.violation("T-frame", key, "store:%s" % norm_text(st.targets[0]), "the boosted momentum of %s is stored under %s" % (fb and fb[-1], norm_text(st.targets[0])), file=fn.mod.rel, line=st.lineno)
-                elif isinstance(st, ast.For):
-                    d = cur_decay
-                    if isinstance(st.target, ast.Name) and norm_text(st.iter) in ("decay_set", "decay_chain"):
-                        d = st.target.id
-                    walk(st.body, dict(env), d)
-                elif isinstance(st, ast.While):
-                    walk(st.body, dict(env), cur_decay)
-                elif isinstance(st, ast.If):
-                    walk(st.body, dict(env), cur_decay)
-                    walk(st.orelse, dict(env), cur_decay)
-                elif isinstance(st, (ast.With, ast.Try)):
-                    walk(st.body, env, cur_decay)
+                    if isinstance(tgt, ast.Subscript):
+                        tf_ = _frame_of(tgt, {})
+                        if is_rv(val) and tf_ and tf_[0] == "rest":
+                            fa, fb = typed(val, env, cur_decay, st)
+                            stored(tf_, fb, cur_decay, st, norm_text(tgt))
+                            continue
+                        if isinstance(val, ast.Name) and isinstance(env.get(val.id), tuple) and tf_ and tf_[0] == "rest":
+                            stored(tf_, env[val.id][2], cur_decay, st, norm_text(tgt))
+                            continue
+                        # part_data[D] = {"rest_p": <map built above>}
+                        if isinstance(val, ast.Dict) and isinstance(tgt.value, ast.Name):
+                            hit = False
+                            for k_, v_ in zip(val.keys, val.values):
+                                if isinstance(k_, ast.Constant) and k_.value == "rest_p" and isinstance(v_, ast.Name) and isinstance(env.get(v_.id), tuple) and env[v_.id][0] == "RESULTMAP":
+                                    _, fa, fb, keytext = env[v_.id]
+                                    stored(("rest", tgt.value.id, norm_text(tgt.slice), keytext), fb, cur_decay, st, norm_text(tgt) + "['rest_p'][" + keytext + "]")
+                                    hit = True
+                            if hit:
+                                continue
+                        # part_data[D]["rest_p"] = {j: rest_vector(p_rest, <momentum of j>) for j in ...}
+                        if isinstance(val, ast.DictComp) and is_rv(val.value) and isinstance(tgt.slice, ast.Constant) and tgt.slice.value == "rest_p" and isinstance(tgt.value, ast.Subscript):
+                            fa, fb = typed(val.value, env, cur_decay, st)
+                            stored(("rest", norm_text(tgt.value.value), norm_text(tgt.value.slice), norm_text(val.key)), fb, cur_decay, st, norm_text(tgt) + "[" + norm_text(val.key) + "]")
+                            continue
+                if calls:
+                    raise AnalysisError("%s:%d rest_vector inside `%s`: store of the result not recognised" % (fn.mod.rel, st.lineno, norm_text(st)[:60]))
 
         walk(fn.node.body, {}, None)
     chk.require_count("T-frame", 10)
